@@ -52,6 +52,10 @@ def limits(rep, prog, f, b):
     for pname, (lo_n, hi_n) in LIBSODIUM_BOUNDS.items():
         p = f.arg_local(pname)
         if p is None:
+            ty_ = "u64" if pname == "opslimit" else "usize"
+            cand = [q for q in cm.params_of(f) if f.locals[q]["t"] == ty_]
+            p = cand[0] if len(cand) == 1 else None
+        if p is None:
             rep.violation("ANCHOR", "%s|%s" % (f.path, pname), "parameter not found", loc=f.loc())
             continue
         lo, hi = bounds(("local", p), facts)
@@ -71,13 +75,65 @@ def limits(rep, prog, f, b):
     rep.ob("PROV", f.path + "|(t,m) from convert_costs", ok, "t_cost and m_cost operands derive from convert_costs(opslimit, memlimit)", loc=c.loc())
     if conv:
         cv = conv[0]
-        ok2 = cm.view_info(f, list(operand_locals(cv.args[0]))[0])[0] == f.arg_local("opslimit") and \
-            cm.view_info(f, list(operand_locals(cv.args[1]))[0])[0] == f.arg_local("memlimit")
+        by_ty = lambda ty_: ([q for q in cm.params_of(f) if f.locals[q]["t"] == ty_] or [None])[0]
+        ok2 = cm.view_info(f, list(operand_locals(cv.args[0]))[0])[0] == by_ty("u64") and \
+            cm.view_info(f, list(operand_locals(cv.args[1]))[0])[0] == by_ty("usize")
         rep.ob("PROV", f.path + "|convert_costs(opslimit, memlimit)", ok2, "argument order", loc=cv.loc())
         e0, e1 = ax[0], ax[1]
         rep.ob("PROV", f.path + "|t is .0, m is .1", repr(e0).endswith(".0") and repr(e1).endswith(".1"),
                "t_cost <- %r, m_cost <- %r" % (e0, e1), loc=c.loc())
     rep.ob("PROV", f.path + "|one lane", evaluate(ax[2], {}) == 1, "parallelism operand is %r" % evaluate(ax[2], {}), loc=c.loc())
+
+
+def _arg_role(g, arg, roles):
+    """role of a call argument in caller g, given the roles of g's parameters"""
+    e = expr_of_operand(g, arg)
+    x = e
+    while x is not None and x.k == "cast":
+        x = x.a
+    if x is not None and x.k == "field" and x.a.k == "call" and x.b in ("0", "1") and x.a.a.is_local:
+        # (t, m) = convert(opslimit, memlimit)
+        inner = [_arg_role(g, a, roles) for a in x.a.a.args]
+        if inner[:2] == ["t_cost", "m_cost"]:
+            return "t_cost" if x.b == "0" else "m_cost"
+    v = evaluate(e, {})
+    if v == 1 and not isinstance(v, bool):
+        return "parallelism"
+    ls = list(operand_locals(arg))
+    if ls:
+        root = cm.view_info(g, ls[0])[0]
+        if root in roles:
+            return roles[root]
+    return None
+
+
+def ctor_roles(prog, roots, ctor):
+    """{role: parameter local of ctor}"""
+    out = {}
+    for r_ in roots:
+        roles = {1: "output", 2: "password", 3: "salt", 4: "t_cost", 5: "m_cost"}
+        frontier = [(r_, roles)]
+        seen = set()
+        while frontier:
+            g, rl = frontier.pop()
+            if g.key in seen:
+                continue
+            seen.add(g.key)
+            for c in g.calls():
+                for t in prog.callee_fns(c):
+                    if not any(k == ctor.key for k in prog.reach_fns([t])):
+                        continue
+                    nr = {}
+                    for i, a in enumerate(c.args):
+                        ro = _arg_role(g, a, rl)
+                        if ro:
+                            nr[i + 1] = ro
+                    if t.key == ctor.key:
+                        for p_, ro in nr.items():
+                            out.setdefault(ro, p_)
+                    else:
+                        frontier.append((t, nr))
+    return out
 
 
 def context_guards(rep, prog):
@@ -98,9 +154,20 @@ def context_guards(rep, prog):
         return
     f = fs[0]
     ef = edge_facts(f, cm.view_info)
-    want = {"output": (("len", f.arg_local("output")), 16), "salt": (("len", f.arg_local("salt")), 8),
-            "parallelism": (("local", f.arg_local("parallelism")), 1), "m_cost": (("local", f.arg_local("m_cost")), 8),
-            "t_cost": (("local", f.arg_local("t_cost")), 1)}
+    # roles of the constructor's parameters are propagated from the public, positional
+    # crypto_pwhash(output, password, salt, opslimit, memlimit, algorithm) along the call chain (names of
+    # private parameters are only a fallback)
+    role_param = ctor_roles(prog, roots, f)
+    for nm in ("output", "salt", "parallelism", "m_cost", "t_cost"):
+        if nm not in role_param and f.arg_local(nm) is not None:
+            role_param[nm] = f.arg_local(nm)
+    missing = [nm for nm in ("output", "salt", "parallelism", "m_cost", "t_cost") if nm not in role_param]
+    if missing:
+        rep.violation("ANCHOR", "Argon2Context::new parameters", "cannot identify the %s parameter(s) of the validation function" % missing, loc=f.loc())
+        return
+    want = {"output": (("len", role_param["output"]), 16), "salt": (("len", role_param["salt"]), 8),
+            "parallelism": (("local", role_param["parallelism"]), 1), "m_cost": (("local", role_param["m_cost"]), 8),
+            "t_cost": (("local", role_param["t_cost"]), 1)}
     nok = 0
     for b, kind, e in result_kind_of_ret(f):
         if kind == "err" or b not in f.reachable(0):
@@ -125,7 +192,7 @@ def context_guards(rep, prog):
                     continue
                 e = expr_of_operand(g, a)
                 bare = e.k == "local" and 1 <= e.a <= g.argc
-                same_name = bare and g.local_name(e.a) == f.local_name(i + 1) or (bare and f.local_name(i + 1) in ("parallelism", "lanes"))
+                same_name = bare    # which parameter it is: checked by role propagation above
                 rep.ob("PROV", "%s|context operand `%s` is the caller's parameter" % (g.path, f.local_name(i + 1)), bare and same_name,
                        "operand for `%s` is %s" % (f.local_name(i + 1), deep_repr(e)[:80]), loc=c.loc())
         nc = [c for c in g.calls() if f in prog.callee_fns(c)]
